@@ -29,4 +29,8 @@ def panicSites1 : List String := ["Number.IteratorAt: panic(\"posit must be non-
 def panicSites2 : List String := ["Number.WithSignificant: panic(\"limit must be non-negative\")", "checkNumDenom: panic(\"Denominator must be positive\")", "checkNumDenom: panic(\"Numerator must be non-negative\")", "memoizer.IteratorAt: panic(\"index must be non-negative\")", "newFormatter: panic(\"sigDigits must be >= exponent\")"]
 def panicSites3 : List String := ["FiniteNumber.WithSignificant: panic(\"limit must be non-negative\")", "checkNumDenom: panic(\"Denominator must be positive\")", "checkNumDenom: panic(\"Numerator must be non-negative\")", "memoizer.IteratorAt: panic(\"index must be non-negative\")", "memoizer.Scan: panic(\"index must be non-negative\")", "memoizer.ScanValues: panic(\"index must be non-negative\")", "newFormatter: panic(\"sigDigits must be >= exponent\")"]
 
+/-- the distinct explicit panic statements of each version, whatever function they live in -/
+def panicStatements1 : List String := ["panic(\"Denominator must be positive\")", "panic(\"Numerator must be non-negative\")", "panic(\"index must be non-negative\")", "panic(\"limit must be non-negative\")", "panic(\"posit must be non-negative\")", "panic(\"sigDigits must be >= exponent\")"]
+def panicStatements23 : List String := ["panic(\"Denominator must be positive\")", "panic(\"Numerator must be non-negative\")", "panic(\"index must be non-negative\")", "panic(\"limit must be non-negative\")", "panic(\"sigDigits must be >= exponent\")"]
+
 end Sqroot.Expect
